@@ -84,4 +84,18 @@ theorem fixed_from_text3 (z : Zoned) (hz : ZInv z) (hm : z.off % 60 = 0) (hs : T
   simp only [trimStart_nil, ne_eq, not_true_eq_false, if_false]
   exact to_datetime_record z hz l hl Y O hvd he hst
 
+/-! ### outside the side condition: a leap-second representation off second 59 -/
+
+/-- a leap-second representation on a second other than 59 (only `with_nanosecond` builds one) prints
+exactly like the ordinary time one second later -/
+theorem time_debug_leap_off_59 (t : Time) (ht : TValid t) (hl : t.frac ≥ 1000000000) (h59 : t.secs % 60 ≠ 59) :
+    time_debug t = time_debug ⟨t.secs + 1, t.frac - 1000000000⟩ := by
+  obtain ⟨t0, t1, t2, t3⟩ := ht
+  unfold time_debug Time.hms
+  dsimp only
+  have e1 : (t.secs + 1) / 60 / 60 = t.secs / 60 / 60 := by omega
+  have e2 : (t.secs + 1) / 60 % 60 = t.secs / 60 % 60 := by omega
+  have e3 : (t.secs + 1) % 60 = t.secs % 60 + 1 := by omega
+  rw [e1, e2, e3, if_pos hl, if_pos hl, if_neg (by omega), if_neg (by omega)]
+
 end Chrono.Proofs.TextFormsMore
